@@ -223,7 +223,6 @@ theorem exec_usercall {G : GCtx} (ok : G.OK) (fuel : Nat) (hcs : CallSpec G fuel
   have hat2 : At G.env.ds (i + (lowerCode G.cg c2).length) (lowerCode G.cg (callTail pj.callKind gs2.labelCount)) := hat.right
   have hproL := (ok.at_pro pj hpj).head
   have lPro := labelIdx_of_nodup _ _ _ _ ok.nodup hproL
-  have haddr := ok.addr_lt (i + (lowerCode G.cg c2).length + 2)
   have hio : s.io = st.io := hs2.2.2.2.1
   cases hf : pj.p.isFunc with
   | true =>
@@ -241,6 +240,7 @@ theorem exec_usercall {G : GCtx} (ok : G.OK) (fuel : Nat) (hcs : CallSpec G fuel
     have t4 := hat2.get 4 _ rfl
     simp only [Nat.add_zero] at t0
     have lLnk := labelIdx_of_nodup _ _ _ _ ok.nodup t2
+    have haddr := ok.addr_lt _ _ _ t2
     have sLdap := Step.ldapL (env := G.env) (cfg (i + (lowerCode G.cg c2).length) a1 b1 mem1) st.io _ _ t0 lLnk
     have sBr := Step.br (env := G.env)
       (cfg (i + (lowerCode G.cg c2).length + 1) (BitVec.ofNat 32 (G.env.addr (i + (lowerCode G.cg c2).length + 2))) b1 mem1)
@@ -291,6 +291,7 @@ theorem exec_usercall {G : GCtx} (ok : G.OK) (fuel : Nat) (hcs : CallSpec G fuel
     have t2 := hat2.get 2 _ rfl
     simp only [Nat.add_zero] at t0
     have lLnk := labelIdx_of_nodup _ _ _ _ ok.nodup t2
+    have haddr := ok.addr_lt _ _ _ t2
     have sLdap := Step.ldapL (env := G.env) (cfg (i + (lowerCode G.cg c2).length) a1 b1 mem1) st.io _ _ t0 lLnk
     have sBr := Step.br (env := G.env)
       (cfg (i + (lowerCode G.cg c2).length + 1) (BitVec.ofNat 32 (G.env.addr (i + (lowerCode G.cg c2).length + 2))) b1 mem1)
